@@ -42,6 +42,7 @@ def setCfg (st : DSt) (kv : String) : Option DSt :=
     | "seg.wdRetainShape" => if v == "perPointerMin" then some st else none
     | "seg.flushRemovePos" => if v == "afterInstall" then some st else none
     | "seg.flushEditOrder" => if v == "EditAddFile,EditLogPointer" then some st else none
+    | "raftwal.sendAfterPersist" => do let b ← boolOfString? v; pure { st with cfg := { st.cfg with sendAfterPersist := b } }
     | "raftwal.syncFlushes" => do let b ← boolOfString? v; pure { st with cfg := { st.cfg with syncFlushes := b } }
     | _ => none
   | _ => none
@@ -243,6 +244,17 @@ def step' (st : DSt) (toks : List String) : DSt × String :=
   | ["sync"] => bg st .flush
   | ["rotate"] => let r := bg st .rotate; ({ r.1 with full := false }, r.2)
   | ["send"] => bg st .send
+  -- peer level (a live peer.Peer over a failing WAL): raft's own answers are not modelled; the
+  -- outputs are verdicts.  A healthy step succeeds; a step whose WAL write fails returns the
+  -- error, and after the crash that follows every vote grant / append ack the peer sent must be
+  -- covered by the recovered hard state and log — which holds iff nothing is sent on the error path.
+  | ["p.vote", _] => (st, "ok\tok")
+  | ["p.app", _] => (st, "ok\tok")
+  | ["p.crash"] => (st, "crash=ok covered\tcrash=ok covered*")
+  | ["p.votefail", _] =>
+    (st, (if st.cfg.sendAfterPersist then "crash=ok covered step=err" else "crash=ok uncovered step=err") ++ "\tcrash=ok covered*")
+  | ["p.appfail", _] =>
+    (st, (if st.cfg.sendAfterPersist then "crash=ok covered step=err" else "crash=ok uncovered step=err") ++ "\tcrash=ok covered*")
   | ["crash"] => doCrash st st.s
   | ["close"] => doCrash st (flush st.s)
   | ["state"] =>
